@@ -279,8 +279,9 @@ Fixpoint add_core (k : sel_bits) (offset : Z) (i : Z) (a : Z) (acc : accs) : opt
         end
       end
   end.
-(* GLWEBlindRetriever::alloc(size): ceil(log2 size) accumulators (u32 arithmetic on size - 1) *)
-Definition retr_nacc (size : Z) : Z := 32 - clz32 (size - 1).
+(* GLWEBlindRetriever::alloc(size): ceil(log2 size) accumulators, at least one (since /repo 38e6b0c):
+   ((u32::BITS - (size.max(1) as u32 - 1).leading_zeros()) as usize).max(1) *)
+Definition retr_nacc (size : Z) : Z := Z.max 1 (32 - clz32 (Z.max 1 size - 1)).
 Definition flush_step (k : sel_bits) (offset : Z) (st : option accs) (i : nat) : option accs :=
   match st with
   | None => None
@@ -299,7 +300,7 @@ Definition flush_step (k : sel_bits) (offset : Z) (st : option accs) (i : nat) :
 Definition flush_loop (k : sel_bits) (offset : Z) (acc : accs) : option accs :=
   fold_left (flush_step k offset) (seq 0 (length acc - 1)) (Some acc).
 Definition retrieve (size : Z) (k : sel_bits) (offset : Z) (data : list Z) : option Z :=
-  if (1 <=? size) && (size <=? 2 ^ 31) then
+  if (0 <=? size) && (size <=? 2 ^ 31) then
     let acc0 : accs := repeat (0, 0) (Z.to_nat (retr_nacc size)) in
     let step (st : option (accs * Z)) (a : Z) : option (accs * Z) :=
       match st with
